@@ -24,11 +24,11 @@ from . import _market as M  # noqa: E402
 PROPERTY = "C08"
 CLAUSES = ["fills-time-asset-quantity", "fills-price", "fills-commission", "final-cash", "final-holdings",
            "daily-equity", "equity-dates"]
-N_QUICK = 40
-N_THOROUGH = 9600
+N_QUICK = 96
+N_THOROUGH = 12000
 BOUND = (
     "Sampled, not exhaustive. Case i of a run is drawn from random.Random('c08:<seed>:<i>'): a synthetic market of "
-    "1-4 assets (seeded random walk, 2-decimal prices 0.5..~2000, Adj Close != Close in 2 of 3 markets, rows missing "
+    "1-4 assets (seeded random walk, 2-decimal prices, first close in 8-400 / 1-20 / 0.6-3, Adj Close != Close in 2 of 3 markets, rows missing "
     "with probability 0.05 in 1 of 4 markets), a static universe, a fixed weight vector (long-only: non-negative, "
     "unnormalised, zeros allowed; long/short: signed), schedule kind cycling through weekly MON..FRI / daily / "
     "end_of_month / buy_and_hold (start 14:30) and sizer cycling long-only / long-short with the case index, cash "
@@ -36,8 +36,9 @@ BOUND = (
     "commission+tax <= 1.5%%, initial cash in {1e4,12345.67,1e5,1e6,2.5e7}, start on any calendar day 2018-2021 at "
     "00:00 or 14:30, end 2-12 weeks later at 23:59. quick: the first %d cases (or fewer if budget_s is used up); "
     "thorough: the first %d cases. Money compared to 1e-6 relative, quantities / times / assets exactly. Cases in "
-    "which the reference's own sizing lands within 1e-9 of a rounding boundary AND the quantities disagree are "
-    "skipped as ill-conditioned (counted in 'rule')." % (N_QUICK, N_THOROUGH))
+    "which the FIRST fill that differs is a quantity difference explained by a sizing step of the reference that "
+    "sits within 1e-9 of a rounding boundary (exact multiples: round cash, round fee, 2-decimal price) are left "
+    "out as ill-conditioned and counted in 'rule'." % (N_QUICK, N_THOROUGH))
 
 OPEN_T = dt.time(14, 30)
 CLOSE_T = dt.time(21, 0)
@@ -133,7 +134,8 @@ def _near_integer(x):
 
 def reference_backtest(csv_dir, cfg):
     """Apply the documented rules.  Returns fills [(time, asset, qty, price, commission)], final cash,
-    holdings, equity [(time, value)] and the number of sizing steps that sat on a rounding boundary."""
+    holdings, equity [(time, value)], the rebalance instants and the sizing steps that sat on a rounding
+    boundary [(rebalance time, asset, chosen quantity, alternative quantities)]."""
     symbols = list(cfg["symbols"])
     universe = ["EQ:%s" % s for s in symbols]
     weights = {"EQ:%s" % s: float(w) for s, w in cfg["alpha"]["weights"].items()}
@@ -142,7 +144,7 @@ def reference_backtest(csv_dir, cfg):
     quotes = Quotes(csv_dir, symbols)
     instants = set(schedule(cfg["rebalance"], cfg.get("weekday"), start, end))
 
-    state = {"cash": float(cfg.get("initial_cash", 1e6)), "boundary": 0}
+    state = {"cash": float(cfg.get("initial_cash", 1e6)), "boundary": [], "rebalances": []}
     held = {}
     fills, equity, pending = [], [], []
 
@@ -177,9 +179,9 @@ def reference_backtest(csv_dir, cfg):
                     raise ValueError("no quote for %s at %s" % (a, t))
                 alloc = budget * (w[a] / total) if total != 0.0 else 0.0
                 x = (alloc - rate * abs(alloc)) / p
-                if x != 0.0 and _near_integer(x):
-                    state["boundary"] += 1
                 out[a] = int(math.floor(x))
+                if x != 0.0 and _near_integer(x):
+                    state["boundary"].append((stamp(t), a, out[a], [int(round(x)) - 1, int(round(x))]))
         else:
             gross = sum(abs(x) for x in w.values())
             for a in assets:
@@ -188,13 +190,16 @@ def reference_backtest(csv_dir, cfg):
                     raise ValueError("no quote for %s at %s" % (a, t))
                 alloc = eq * cfg["gross_leverage"] * w[a] / gross if gross != 0.0 else 0.0
                 dollars = alloc - rate * abs(alloc)
-                if dollars != 0.0 and _near_integer(dollars):
-                    state["boundary"] += 1
                 whole = math.trunc(dollars)
                 x = whole / p
-                if x != 0.0 and _near_integer(x):
-                    state["boundary"] += 1
                 out[a] = int(math.trunc(x))
+                if dollars != 0.0 and _near_integer(dollars):
+                    # a one-unit slip of the whole-currency amount: does it change the quantity?
+                    alts = [int(math.trunc((whole + s) / p)) for s in (-1, 1)]
+                    if any(q != out[a] for q in alts):
+                        state["boundary"].append((stamp(t), a, out[a], alts))
+                if x != 0.0 and _near_integer(x):
+                    state["boundary"].append((stamp(t), a, out[a], [int(round(x)) + s for s in (-1, 0, 1)]))
         return assets, out
 
     for t, kind in clock(start, end):
@@ -204,6 +209,7 @@ def reference_backtest(csv_dir, cfg):
             for asset, qty in batch:
                 fill(t, asset, qty)
         if t in instants:
+            state["rebalances"].append(stamp(t))
             assets, target = targets(t)
             orders = [(a, target[a] - held.get(a, 0)) for a in assets if target[a] - held.get(a, 0) != 0]
             if exchange_open(t):
@@ -214,7 +220,7 @@ def reference_backtest(csv_dir, cfg):
         if kind == "close":
             equity.append((stamp(t), marked(t)))
     return {"fills": fills, "cash": state["cash"], "holdings": dict(held), "equity": equity,
-            "boundary": state["boundary"]}
+            "boundary": state["boundary"], "rebalances": state["rebalances"]}
 
 
 # ==================================================================================================
@@ -265,7 +271,7 @@ def gen_case(seed, i):
         "seed": rng.randrange(10 ** 9), "symbols": symbols,
         "first": M.add_bdays(start_day, -8).isoformat(), "last": (end_day + dt.timedelta(days=5)).isoformat(),
         "gap_prob": rng.choice([0.0, 0.0, 0.0, 0.05]), "adjust": rng.random() < 0.67,
-        "sigma": rng.choice([0.01, 0.02, 0.04]),
+        "sigma": rng.choice([0.01, 0.02, 0.04]), "price_range": rng.choice([[8.0, 400.0], [8.0, 400.0], [0.6, 3.0], [1.0, 20.0]]),
     }
     return {"market": market, "cfg": cfg}
 
@@ -275,6 +281,31 @@ def gen_case(seed, i):
 # ==================================================================================================
 def money_eq(a, b):
     return M.approx(a, b, rel=1e-6, abs_=1e-6)
+
+
+def ill_conditioned(ref, got, exp):
+    """True iff the FIRST difference between the real and the reference fill lists is a quantity difference
+    for one (time, asset) that is explained by a sizing step of the latest rebalance which sat within 1e-9
+    of a rounding boundary (floating-point noise decides such a step; the property is stated over reals).
+    Everything after such a fill legitimately diverges, so the case is then left out."""
+    k = next((j for j in range(max(len(got), len(exp))) if j >= len(got) or j >= len(exp) or got[j] != exp[j]), None)
+    if k is None or not ref["boundary"]:
+        return False
+    g = got[k] if k < len(got) else None
+    e = exp[k] if k < len(exp) else None
+    if g is not None and e is not None and g[:2] == e[:2]:
+        t, asset, dq = g[0], g[1], g[2] - e[2]
+    elif g is not None and g[:2] not in [x[:2] for x in exp]:
+        t, asset, dq = g[0], g[1], g[2]                 # an order the reference sized to zero
+    elif e is not None and e[:2] not in [x[:2] for x in got]:
+        t, asset, dq = e[0], e[1], -e[2]                # an order the library sized to zero
+    else:
+        return False
+    earlier = [r for r in ref["rebalances"] if r <= t]
+    if not earlier:
+        return False
+    return any(bt == earlier[-1] and ba == asset and dq in [alt - q for alt in alts]
+               for (bt, ba, q, alts) in ref["boundary"])
 
 
 def compare(case, obs, ref):
@@ -297,7 +328,7 @@ def compare(case, obs, ref):
                 {"n": len(got_taq), "first_diff": None if first is None or first >= len(got_taq) else got_taq[first]},
                 {"n": len(exp_taq), "first_diff": None if first is None or first >= len(exp_taq) else exp_taq[first]}))
     ok_h = obs["holdings"] == ref["holdings"]
-    ill = ref["boundary"] > 0 and not (ok_taq and ok_h)
+    ill = (not ok_taq) and got_taq == tap_taq and ill_conditioned(ref, got_taq, exp_taq)
     bad_p = bad_c = None
     for k in range(min(len(hist), len(ref["fills"]), len(obs["txns"]))):
         f, h, x = ref["fills"][k], hist[k], obs["txns"][k]
@@ -331,12 +362,18 @@ def check_case(case):
         ref = reference_backtest(d, case["cfg"])
     ill, res = compare(case, obs, ref)
     return {"case": case, "ill": ill, "results": [(c, ok, o, e) for c, ok, o, e in res],
-            "n_fills": len(ref["fills"]), "n_equity": len(ref["equity"]), "boundary": ref["boundary"]}
+            "n_fills": len(ref["fills"]), "n_equity": len(ref["equity"]), "boundary": len(ref["boundary"]),
+            "ill_detail": ([b for b in ref["boundary"]][:4] if ill else None)}
 
 
 def _worker(args):
-    seed, i = args
-    return check_case(gen_case(seed, i))
+    case = gen_case(*args)
+    try:
+        return check_case(case)
+    except Exception as exc:  # noqa: BLE001  (never raise out of run(): report it against every clause)
+        why = "check could not be evaluated: %s: %s" % (type(exc).__name__, exc)
+        return {"case": case, "ill": False, "results": [(c, False, why, None) for c in CLAUSES],
+                "n_fills": 0, "n_equity": 0, "boundary": 0}
 
 
 def run(tier="quick", seed=0, budget_s=60.0, jobs=1):
@@ -371,8 +408,8 @@ def run(tier="quick", seed=0, budget_s=60.0, jobs=1):
         "distinct_nontrivial": nontrivial,
         "rule": ("case i = gen_case(seed, i) (see BOUND); one evaluation = one real session + one reference run on the "
                  "same CSV directory; distinct = distinct (market spec, configuration) JSON; non-trivial = the "
-                 "reference produced at least one fill. %d case(s) skipped as ill-conditioned (reference sizing within "
-                 "1e-9 of a rounding boundary and quantities disagree). %s"
+                 "reference produced at least one fill. %d case(s) left out as ill-conditioned (first differing fill is "
+                 "a sizing step within 1e-9 of a rounding boundary, see BOUND). %s"
                  % (skipped_ill, "all %d cases of the tier ran" % n if done_all else "stopped early on budget_s")),
         "samples": samples,
         "exhaustive": False,
